@@ -5,11 +5,28 @@
 #include <zix/status.h>
 #include <zix/string_view.h>
 
+// "same views, rewritten bytes" probe: two calls with identical view values and the viewed bytes changed in
+// between, in one function, with nothing but memcpy between them; built with -O2 so that a declaration promising
+// more than the function keeps (const instead of pure) lets the compiler merge the calls and return a stale answer
+__attribute__((noinline)) static int probe_equals(char* buf, const unsigned char* m1, const unsigned char* m2, size_t n,
+                                                  size_t o1, size_t l1, size_t o2, size_t l2, int* first)
+{
+  const ZixStringView a = zix_substring(buf + o1, l1);
+  const ZixStringView b = zix_substring(buf + o2, l2);
+  memcpy(buf, m1, n);
+  const bool r1 = zix_string_view_equals(a, b);
+  memcpy(buf, m2, n);
+  const bool r2 = zix_string_view_equals(a, b);
+  *first = r1;
+  return r2;
+}
+
 int main(void)
 {
   char*  line = NULL;
   size_t cap  = 0;
   char*  tok[8];
+  setvbuf(stdout, NULL, _IOLBF, 0); // a sanitizer abort must not swallow the lines already produced
   while (vgetline(&line, &cap)) {
     int n = vsplit(line, tok, 8);
     if (n == 2 && !strcmp(tok[0], "E")) {
@@ -46,6 +63,22 @@ int main(void)
       fputc('\n', stdout);
       zix_free(NULL, cp);
       free(mem);
+    } else if (n == 7 && !strcmp(tok[0], "W")) {
+      unsigned char *m1 = NULL, *m2 = NULL;
+      size_t         len = vunhex(tok[1], &m1), len2 = vunhex(tok[2], &m2);
+      size_t o1 = strtoul(tok[3], 0, 10), l1 = strtoul(tok[4], 0, 10);
+      size_t o2 = strtoul(tok[5], 0, 10), l2 = strtoul(tok[6], 0, 10);
+      if (len != len2 || o1 + l1 > len || o2 + l2 > len) {
+        puts("bad-case");
+      } else {
+        char* buf   = (char*)malloc(len ? len : 1);
+        int   first = 0;
+        int   r2    = probe_equals(buf, m1, m2, len, o1, l1, o2, l2, &first);
+        printf("eq1=%s eq2=%s\n", first ? "true" : "false", r2 ? "true" : "false");
+        free(buf);
+      }
+      free(m1);
+      free(m2);
     } else {
       puts("?");
     }
